@@ -201,4 +201,23 @@ def P.AddrFrameSpec (p : P) (t : Nat) (a : AddrSpec) (sc : SubSpec) (flags : Nat
     d.cat = cs.1 ∧ d.sub = cs.2 ∧ d.depth = 0 ∧ d.file = none ∧ d.line = none ∧ d.col = none ∧ d.flags = flags ∧
     addrTail p.libs th la d
 
+/-- what `handle_for_frame_with_address_and_symbol(thread t, address a, FrameSymbolInfo { name, native_symbol,
+source_location { file, line, col } }, inline depth, subcategory sc, flags)` is asked to intern in state `p`,
+as a predicate on the description `d`: category / subcategory names behind the subcategory handle, the file
+string, line, column, flags; for an address no mapping covers: the given name (or the hex string of the
+address), no library / address / native symbol, inline depth 0 (the frame degrades to a label frame); for an
+address inside a library: the library's identity, the relative address, the native symbol *the handle
+denotes* (its row's description in the state before the call), the inline depth, and the given name or —
+without one — the native symbol's name -/
+def P.SymFrameSpec (p : P) (t : Nat) (a : AddrSpec) (name : Option Nat) (nsym : TH) (file line col : Option Nat)
+    (depth : Nat) (sc : SubSpec) (flags : Nat) (d : FrameDesc) : Prop :=
+  ∃ p1 c s cs th pr la nm fs, p.resolveSub sc = (p1, .ok c s) ∧ subNames p1.cats c s = some cs ∧
+    p.threads[t]? = some th ∧ p.processes[th.process]? = some pr ∧ resolveLib pr.maps a = some la ∧
+    p.optGstr name = some nm ∧ p.optGstr file = some fs ∧
+    d.cat = cs.1 ∧ d.sub = cs.2 ∧ d.file = fs ∧ d.line = line ∧ d.col = col ∧ d.flags = flags ∧
+    match la with
+    | .unknown addr => d.name = nm.getD (hexStr addr) ∧ d.lib = none ∧ d.addr = none ∧ d.nsym = none ∧ d.depth = 0
+    | .inLib rel lib => ∃ id q, p.libs.all[lib]? = some id ∧ p.nsymDescOf th nsym.2 = some q ∧
+        d.lib = some id ∧ d.addr = some rel ∧ d.nsym = some q ∧ d.depth = depth ∧ d.name = nm.getD q.2.2.2
+
 end PT
